@@ -117,7 +117,7 @@ class Run:
             e.update(env)
         self.errf = open(os.path.join(project.dir, 'stderr.%d' % int(time.time() * 1e6)), 'w+')
         self.proc = subprocess.Popen([vf.ZINOMA] + args, cwd=cwd or project.dir, env=e, stdout=self.errf,
-                                     stderr=subprocess.STDOUT, start_new_session=True)
+                                     stderr=subprocess.STDOUT, start_new_session=True, preexec_fn=vf.reset_signals)
         self.t0 = time.time()
         self.released = {}
         self.exit_code = None
